@@ -165,10 +165,15 @@ class CFG:
             return True
         return self._dom(self.ipdom(), a, b)
 
-    def reachable(self, a, b, avoid=()):
-        """Is there a path a -> b (length >= 1) that avoids the nodes in `avoid`?"""
+    def reachable(self, a, b, avoid=(), within=None):
+        """Is there a path a -> b (length >= 1) that avoids the nodes in `avoid`?
+        With `within` (a loop node) only paths that stay inside that loop's body are considered
+        (b may be the loop header itself)."""
         a, b = self.node_of(a), self.node_of(b)
         avoid = {id(self.node_of(x)) for x in avoid}
+        inside = None
+        if within is not None:
+            inside = {id(n) for st in within.body for n in ast.walk(st)}
         seen = set()
         work = [t for t in self.G.successors(a)]
         while work:
@@ -179,6 +184,8 @@ class CFG:
             if cur is b or cur == b:
                 return True
             if id(cur) in avoid:
+                continue
+            if inside is not None and (isinstance(cur, str) or id(cur) not in inside):
                 continue
             work.extend(self.G.successors(cur))
         return False
